@@ -39,11 +39,16 @@ def wf_shortcut():
     return W.Workflow([W.T("C", ["src"], ["c"], spec="echo C\n"), W.T("B", ["c"], ["b"], spec="echo B\n"), W.T("X", ["b", "c"], ["x"], spec="echo X\n")])
 
 
+def wf_topdown():
+    # the shortcut workflow written top-down: every target is defined before the targets it depends on
+    return W.Workflow([W.T("X", ["b", "c"], ["x"], spec="echo X\n"), W.T("B", ["c"], ["b"], spec="echo B\n"), W.T("C", ["src"], ["c"], spec="echo C\n")])
+
+
 def wf_twocomp():
     return W.Workflow([W.T("A", ["src"], ["a"], spec="echo A\n"), W.T("B", ["a"], ["b"], spec="echo B\n"), W.T("X", ["src2"], ["x"], spec="echo X\n")])
 
 
-WORKFLOWS = {"twocomp": wf_twocomp, "shortcut": wf_shortcut, "fork": wf_fork, "chain": wf_chain, "diamond": wf_diamond, "pair": wf_pair}
+WORKFLOWS = {"twocomp": wf_twocomp, "shortcut": wf_shortcut, "fork": wf_fork, "chain": wf_chain, "diamond": wf_diamond, "pair": wf_pair, "topdown": wf_topdown}
 
 SUBMIT_EXE = {"slurm": "sbatch", "sge": "qsub", "lsf": "bsub"}
 
@@ -192,6 +197,26 @@ def enabled_env(world, kinds=("start", "finish_ok", "finish_fail", "timeout", "c
         if j["state"] == "FAILED" and "requeue" in kinds and world.sim["kind"] == "slurm":
             acts.append(("env", "requeue", t.name))
     return acts
+
+
+def build(wf, backend, actions=(), **init_kw):
+    """Initial world + preparatory actions. A gwf command that fails, or an environment step that needs a job gwf should have submitted
+    and tracked, raises runner.SetupFailed (reported as a violation with this recipe as its replayable case)."""
+    from mc.errors import SetupFailed
+
+    recipe = dict(wf=wf, backend=backend, actions=[list(a) for a in actions], **init_kw)
+    w = init_world(wf, backend, **init_kw)
+    for k, a in enumerate(actions):
+        a = tuple(a) if a[0] != "gwf" else ("gwf", list(a[1]))
+        if a[0] == "env" and tracked_job(w, a[2]) is None:
+            raise SetupFailed(recipe, dict(step=k, action=list(a), tracked=w.tracked), f"no tracked job for {a[2]} after the preceding commands")
+        if a[0] == "env" and a not in enabled_env(w):
+            raise SetupFailed(recipe, dict(step=k, action=list(a), jobs={j: (v["name"], v["state"]) for j, v in w.sim["jobs"].items()}), f"scheduler step {a[1]} {a[2]} is not possible after the preceding commands")
+        w, res = apply_action(w, a)
+        if res is not None and (res.exit_code != 0 or res.crashed()):
+            raise SetupFailed(recipe, res.as_dict(), f"`gwf {' '.join(a[1])}` failed: {res.exc or res.err_summary()}")
+        w.normalize()
+    return w
 
 
 def apply_action(world, action, session=None):
